@@ -18,6 +18,7 @@ pub mod queue;
 pub mod rtwait;
 pub mod rtloop;
 pub mod rtwake;
+pub mod rtcancel;
 pub mod hookproc;
 pub mod sched;
 pub mod sel;
@@ -37,6 +38,7 @@ pub static ALL: &[Comp] = &[
     Comp { name: "rtwait", gen: rtwait::gen, exec: rtwait::exec, isolate_ms: 10000 },
     Comp { name: "rtloop", gen: rtloop::gen, exec: rtloop::exec, isolate_ms: 12000 },
     Comp { name: "rtwake", gen: rtwake::gen, exec: rtwake::exec, isolate_ms: 12000 },
+    Comp { name: "rtcancel", gen: rtcancel::gen, exec: rtcancel::exec, isolate_ms: 15000 },
     Comp { name: "hookproc", gen: hookproc::gen, exec: hookproc::exec, isolate_ms: 12000 },
     Comp { name: "co", gen: co::gen, exec: co::exec, isolate_ms: 5000 },
     Comp { name: "local", gen: local::gen, exec: local::exec, isolate_ms: 5000 },
